@@ -374,6 +374,26 @@ where
             None
         };
 
+        // The checks at the start of this function were on what's in the AST. Since then we've
+        // added a rule, a token, and a production of our own (and, for Eco grammars with implicit
+        // tokens, more rules, productions, and symbols): check that what we've ended up with still
+        // fits in StorageT (if it doesn't, some of the indices calculated above will have wrapped).
+        let max = num_traits::cast::<StorageT, usize>(StorageT::max_value()).unwrap();
+        if rule_names.len() > max {
+            panic!("StorageT is not big enough to store this grammar's rules.");
+        }
+        if token_names.len() > max {
+            panic!("StorageT is not big enough to store this grammar's tokens.");
+        }
+        if prods.len() > max {
+            panic!("StorageT is not big enough to store this grammar's productions.");
+        }
+        if prods.iter().flatten().any(|p| p.len() > max) {
+            panic!(
+                "StorageT is not big enough to store the symbols of at least one of this grammar's productions."
+            );
+        }
+
         assert!(!token_names.is_empty());
         assert!(!rule_names.is_empty());
         Ok(YaccGrammar {
